@@ -1,7 +1,7 @@
 (* C36 -- Contour tracing and drawing stay on the image.
    Only statements; every proof is `exact <lemma>`.  Models: Draw.v, Contours.v. *)
 From RV Require Import Prelude.
-From ImageProc Require Import Draw Draw_proofs.
+From ImageProc Require Import Draw Draw_proofs Contours Contours_proofs Contours_bounded.
 Open Scope Z_scope.
 
 (* ---------------- drawing (all inputs) ---------------- *)
@@ -89,4 +89,45 @@ Example C36_nonvacuous_draw :
   draw_line1 4 4 (1, -3) (2, 9) = Writes [(1, 0); (1, 1); (2, 2)] /\
   fill_rect 3 3 (from_tlbr (-1) 1 2 7) = Writes [(0, 1); (0, 2); (1, 1); (1, 2)] /\
   draw_line1 4 4 (-5, 0) (-1, 3) = Writes [].
+Proof. repeat split; vm_compute; reflexivity. Qed.
+
+(* ---------------- contours (bounded: every mask of at most 4 rows and 4 columns) ---------------- *)
+
+(* (7) For ALL binary masks with at most 4 rows and at most 4 columns (all 75 000+ of them, by
+   exhaustive evaluation inside the kernel, the enumeration being proved complete), and both
+   retrieval modes: border following terminates (the fuel is not exhausted) without a panic;
+   every point of every returned contour is a foreground pixel that has a background pixel or
+   the outside of the image among its 8 neighbours; and every foreground pixel p has a contour
+   that stays inside p's 8-connected component and passes through every row-/column-extreme
+   pixel of that component (an outer contour).
+   The unbounded statement (Suzuki-Abe correctness for all image sizes) is NOT attempted. *)
+Theorem C36_contours_ok_le_4x4 : forall (m : mask) (w : nat) (md : mode),
+  (length m <= 4)%nat -> (w <= 4)%nat -> (forall r, In r m -> length r = w) ->
+  exists cs, find_contours m md = Ok cs /\
+    (forall C p, In C cs -> In p C ->
+       fgb m p = true /\ exists q, In q (neighbors p) /\ fgb m q <> true) /\
+    (forall p, fgb m p = true -> exists C, In C cs /\
+       (forall q, In q C -> conn m p q) /\
+       (forall q, extreme m p q -> In q C)).
+Proof. exact contours_ok_le_4x4. Qed.
+
+(* (8) the oracle applied to the implementation's output in the correspondence check is sound
+   for masks of ANY size: what it accepts satisfies the specification above *)
+Theorem C36_contours_checker_sound : forall (m : mask) (cs : list (list point)),
+  (forall r, In r m -> Z.of_nat (length r) = mask_w m) ->
+  contours_ok_b m ListMode cs = true ->
+  (forall C p, In C cs -> In p C ->
+     fgb m p = true /\ exists q, In q (neighbors p) /\ fgb m q <> true) /\
+  (forall p, fgb m p = true -> exists C, In C cs /\
+     (forall q, In q C -> conn m p q) /\
+     (forall q, extreme m p q -> In q C)).
+Proof. exact contours_checker_sound. Qed.
+
+(* non-vacuity: a ring with a hole (List mode), two diagonal pixels are one component, a
+   hook-shaped component *)
+Example C36_nonvacuous_contours :
+  find_contours [[true;true;true];[true;false;true];[true;true;true]] ListMode
+    = Ok [[(0,0);(1,0);(2,0);(2,1);(2,2);(1,2);(0,2);(0,1)]] /\
+  find_contours [[true;false];[false;true]] External = Ok [[(0,0);(1,1)]] /\
+  find_contours [[false;true;false;true];[false;false;false;true]] ListMode = Ok [[(0,1)];[(0,3);(1,3)]].
 Proof. repeat split; vm_compute; reflexivity. Qed.
